@@ -114,7 +114,11 @@ def build_go(cmds):
     logs = []
     ok = True
     for c in cmds:
-        p = run(["go", "build", "-tags", "verif", "-o", os.path.join(BIN, c), "./cmd/" + c], cwd=HARNESS, env=goenv(), timeout=900)
+        if c.endswith(".race"):
+            # race-detector build of the same command (thorough tier of C18)
+            p = run(["go", "build", "-race", "-tags", "verif", "-o", os.path.join(BIN, c), "./cmd/" + c[:-5]], cwd=HARNESS, env=goenv(), timeout=1800)
+        else:
+            p = run(["go", "build", "-tags", "verif", "-o", os.path.join(BIN, c), "./cmd/" + c], cwd=HARNESS, env=goenv(), timeout=900)
         if p.returncode != 0:
             ok = False
             logs.append(p.stdout)
